@@ -8,6 +8,9 @@ RELATED = {  # checks run in addition to the property's own one
     "C03a": ["C14"], "C14a": ["C03"], "C04b": ["C03"], "C08b": ["C15"], "C15a": ["C08"], "C16a": ["C07"], "C10b": ["C11"], "C11b": ["C10"],
     "C13b": ["C15"], "C15b": ["C13"], "C05b": ["C02", "C04"], "C02a": ["C05"], "C01a": ["C05", "C08"], "C17a": ["C12"],
     "C02e": ["C12"], "C02f": ["C12"], "C03f": ["C17"], "C11f": ["C17"], "C12f": ["C08", "C01"], "C10e": ["C16"], "C03e": ["C05"], "C01f": ["C02"], "C17f": ["C10"],
+    "C13g": ["C15", "C16"], "C13h": ["C17"], "C05g": ["C14", "C03"], "C05h": ["C01", "C13", "C11"], "C06g": ["C03"], "C06h": ["C03", "C01"],
+    "C03g": ["C05", "C06"], "C03h": ["C12"], "C17g": ["C12", "C16"], "C17h": ["C01"], "C01g": ["C13"], "C08h": ["C12"], "C10h": ["C11", "C16"],
+    "C16g": ["C17", "C12"], "C16h": ["C17", "C13"], "C04g": ["C05"], "C04h": ["C11", "C05"], "C15h": ["C16"], "C12g": ["C17", "C16"], "C12h": ["C10"],
 }
 def props_of(name):
     p = os.path.join(SEEDED, name, "props.txt")
